@@ -25,6 +25,34 @@ TABLE = {
             'Bit-counting functions: operational byte forms model-checked against set-of-bits definitions for all 8/16-bit values; recorded lane and scalar-overload results judged by TLC.', '7 C06'),
     'C07': ('model checking + trace validation of lane facts',
             'blend/keep/clear/set_bits, min/max/minmax/clamp, abs/neg_abs/negate, average, midpoint: model-checked against statements on unbounded integers at 8/16 bits; recorded lane and scalar results judged by TLC.', '7 C07'),
+    'C03': ('model checking + trace validation (facts and register programs)',
+            'Mask.tla: masks as arrays of booleans; MC_Mask checks the Boolean-algebra laws and that the k-register implementation model refines the abstract array for all 2^N x 2^N register pairs, N <= 8. Conformance: every mask operation on immediate operands with ALL observers of the result recorded (extract<I>, count/any/all/none, Vector(mask), set_bits, ==), exhaustive for N <= 8, structured + random above; plus register programs (4 live masks, results feed later operations) validated by TraceMask.tla, which computes operands from its own state.', '7 C03'),
+    'C08': ('model checking + trace validation of memory events',
+            'Mem.tla: load/store/gather/scatter/extract/insert on byte images; MC_Mem checks C08 on a bounded three-page memory. Conformance: every n in 0..width+2 (and 2^31, 2^32-1), every compile-time N, every lane index, four placements, aligned and unaligned forms; window contents before/after recorded and judged by TLC.', '7 C08'),
+    'C09': ('model checking + trace validation of memory events',
+            'Same machine with ghost read/write footprints and page protection; access strategies exact / fault-suppressed mask / full-window RMW are model-checked (the last violates C09: vacuity guard). Conformance: transfers issued flush against PROT_NONE pages at either end, n = 0 with the pointer inside an inaccessible page, inactive gather/scatter lanes pointing into inaccessible memory, sentinel bytes around every store target; signals and window contents recorded and judged by TLC.', '7 C09'),
+    'C10': ('trace validation with correct rounding accepted by postcondition',
+            'FP.tla: RoundsTo(mode, C, r) decides correct rounding through exact bignum comparisons (sum, product, quotient a/b via cmp(a, d*b), sqrt via cmp(a, d*d)); FP.tla itself is validated against an independent exact-rational oracle on labelled correct/corrupted facts (MC_FPSelf). Conformance: special-value/binade/halfway lattice squared x 4 rounding modes x float/double x every width, + random patterns, all forms; each lane result judged by TLC.', '7 C10'),
+    'C11': ('trace validation by postcondition + environment facts',
+            'ceil/floor/trunc/round/nearbyint/rint judged by integer-neighbourhood comparisons on exact dyadics under each of the four modes; every driver call records the rounding control / FTZ / DAZ before and after (env facts: an AVEL call must leave them unchanged).', '7 C11'),
+    'C12': ('trace validation by postcondition',
+            'frexp/ldexp/scalbn/ilogb/logb/frac/fmax/fmin/fdim on exponent fields and exact dyadics (ldexp through RoundsTo with the exponent swept over the whole range incl. INT_MIN/INT_MAX).', '7 C12'),
+    'C13': ('trace validation of lane facts',
+            'Classification and quiet comparisons as pure field tests; platform FP_* constants are mapped to names by the driver; every lattice / random pattern judged by TLC.', '7 C13'),
+    'C14': ('trace validation of object histories',
+            'Denom.tla / TraceDenom.tla: the specification keeps den[id] = divisor given at construction and judges every later div, / %, /= %=, value() against its own state with DivRel; all (n, d) at 8 bits, adversarial numerators per divisor above; a signal during construction or use is a rejected event.', '7 C14'),
+    'C15': ('trace validation of object histories',
+            'Vector denominators built from per-lane divisors (a different divisor in every lane) and broadcast from a scalar denominator; per-lane DivRel; missing or inaccessible members are recorded as events the specification rejects.', '7 C15'),
+    'C16': ('model checking + trace validation of lane facts',
+            'The scalar overloads are judged by the same lane semantics as the vector lanes (so scalar = lane follows through the specification), in every subset of the scalar feature macros (thorough) / a covering selection (quick); mixed-sign cmp_* model-checked against comparison of mathematical integers at 8 bits; literal-argument calls catch results that differ under constant folding.', '7 C16'),
+    'C17': ('model checking + trace validation of lane facts',
+            'convert<V0>, converting constructors, mask conversions (all observers), width-1 conversions between element sizes (= static_cast on bytes), bit_cast; 8/16-bit values exhaustively.', '7 C17'),
+    'C18': ('model checking + trace validation of allocator histories',
+            'MC_Alloc: the three implementations over a nondeterministic system heap, all placements, adversarial user writes (vacuity guard: an offset word inside the user range is caught). Conformance: seeded allocate/fill/deallocate histories on 22 (T, A) instantiations in 8 builds (C++11..20, SSE, clang, UBSan), system allocator calls observed by link-time interposition, validated by TraceAlloc.tla (alignment, containment, disjointness, exact frees, intact fill patterns, no leak).', '7 C18'),
+    'C19': ('model checking + trace validation of compile/link probes',
+            'Config.tla: documented implication closure, type table, alias widths (MC_Config: closure laws, monotonicity). "Replaying a configuration" = compiling it: probe TUs per macro set, explicitly named and with AVEL_AUTO_DETECT + matching flags, GCC/Clang, C++11..20; standalone header inclusion; API table (operation well-formed for width 1 => declared and linkable for every wider vector) from a detection + link probe; all observations judged by TLC.', '7 C19'),
+    'C20': ('model checking + trace validation',
+            'Prefetch as an action with empty footprint in MC_Mem; conformance over pointer class x offset x count x level x read/write x typed/untyped with guard pages and a before/after snapshot of the accessible page.', '7 C20'),
 }
 
 NOT_YET = 'check under construction in this round (specification module and driver not yet committed)'
